@@ -1759,7 +1759,15 @@ class Interp:
             if len(g) > 1:
                 self.tmpl_store[j] = self.last_tmpl
             if hard:
-                r = self.hard_widen(self.hard_prev.get(j), r)
+                old_ = self.hard_prev.get(j)
+                if old_ is not None and not old_.dead and not r.dead and old_.env != r.env:
+                    # the iteration allocates (a String, a Vec: a new object identity every time round), so the two
+                    # environments never compare equal: join them first - what differs is dropped or becomes a phi of this
+                    # head - and widen the result, whose environment then repeats
+                    jh = (j, "hard")
+                    r = self.join([old_, r], jh, widen_prev=self.tmpl_store.get(jh))
+                    self.tmpl_store[jh] = self.last_tmpl
+                r = self.hard_widen(old_, r)
                 self.hard_prev[j] = r
             out.append(r)
         return out
